@@ -18,6 +18,14 @@ def run(tier, seed):
                            timeout=600, expect="violation")
         if not r["violated"]:
             raise vlib.Broken("the variant of FutexMulti (%s) is not rejected: the properties are vacuous" % what)
+    for cfg, what in (("BarrierProtoMC.cfg", "3 callers, 3 waiters, 2 rounds, incl. liveness"), ("BarrierProtoMC2.cfg", "3 callers sharing a barrier of 2 waiters, 3 rounds each: overlapping rounds")):
+        vlib.tlc_check(chk, "BarrierProto: ABT_barrier_wait as coded (lock, counter, wait list, broadcast, reset), exhaustive, %s" % what,
+                       os.path.join(d, "BarrierProto.tla"), os.path.join(d, cfg), timeout=600)
+    for cfg, what in (("BarrierProtoResetLate.cfg", "counter reset after the lock is released"), ("BarrierProtoBcastLate.cfg", "broadcast issued after the lock is released")):
+        r = vlib.tlc_check(chk, "BarrierProto with the %s (must be violated: a caller leaves an incomplete round)" % what, os.path.join(d, "BarrierProto.tla"), os.path.join(d, cfg),
+                           timeout=600, expect="violation")
+        if not r["violated"]:
+            raise vlib.Broken("the variant of BarrierProto (%s) is not rejected: the properties are vacuous" % what)
     vlib.history_check(chk, "d_sync", ["barrier", "xbarrier"], "H_Barrier", quick, seed, what="a caller left a barrier round before all waiters entered it")
     chk.assumptions += ["serialized mode explores sequentially consistent interleavings of the hooked atomic operations",
                         "scenario scripts follow a discipline under which a correct implementation terminates; a run that ends in deadlock/stuck/budget is reported as a progress violation"]
